@@ -9,6 +9,7 @@ import (
 	"verif/mc/harness"
 	"verif/mc/mcrt"
 	"verif/props"
+	"verif/ref"
 
 	"github.com/goblimey/go-ntrip/apps/appcore"
 	"github.com/goblimey/go-ntrip/jsonconfig"
@@ -146,6 +147,62 @@ func c09Scenarios(tier string) []*mcrt.Scenario {
 				})
 			}
 		}
+	}
+	// inputs around the 4096-byte buffer of bufio.Reader (default schedule; the
+	// source hands over everything that fits per Read)
+	for _, n := range []int{4095, 4096, 4097, 8193} {
+		var stream []byte
+		fr := ref.TypedFrame(1077, 22, nil)
+		for len(stream)+len(fr) <= n {
+			stream = append(stream, fr...)
+		}
+		for len(stream) < n {
+			stream = append(stream, '$')
+		}
+		scs = append(scs, &mcrt.Scenario{
+			Name: fmt.Sprintf("stream=%dB consumers=[buf1,nil,unbuf] default-schedule", n), DefaultOnly: true, Horizon: 4000000,
+			Body: func(x *mcrt.X) {
+				obs := &c09Obs{src: &chunkSrc{data: stream}}
+				x.Data = obs
+				chans := []chan handler.Message{make(chan handler.Message, 1), nil, make(chan handler.Message)}
+				own := append([]chan handler.Message{}, chans...)
+				for i, ch := range chans {
+					if ch != nil {
+						log := &consumerLog{}
+						obs.logs = append(obs.logs, log)
+						consume(fmt.Sprintf("consumer%d", i), ch, log)
+					}
+				}
+				core := appcore.New(&jsonconfig.Config{}, chans)
+				obs.ret = core.HandleMessagesUntilEOF(T0, bufio.NewReader(obs.src))
+				obs.returned = true
+				for _, ch := range own {
+					if ch != nil {
+						mcrt.Close(ch)
+					}
+				}
+			},
+			Check: func(x *mcrt.X) *mcrt.Failure {
+				obs := x.Data.(*c09Obs)
+				if len(x.Panics) > 0 {
+					p := x.Panics[0]
+					return &mcrt.Failure{Kind: "panic in " + p.Thread + ": " + firstLine(p.Value) + " @" + p.Site, Detail: p.Stack}
+				}
+				if !obs.returned || x.End != mcrt.EndAllDone {
+					return &mcrt.Failure{Kind: "call-did-not-return end=" + x.End, Detail: fmt.Sprint(x.Blocked)}
+				}
+				for i, log := range obs.logs {
+					if ok, d := sameAsSequential(log.msgs, stream); !ok {
+						if len(d) > 300 {
+							d = d[:300]
+						}
+						return &mcrt.Failure{Kind: "consumer-sequence-differs-from-sequential-framing", Detail: fmt.Sprintf("%d-byte stream, consumer %d: %s", len(stream), i, d)}
+					}
+				}
+				harness.Outcome("large stream delivered")
+				return nil
+			},
+		})
 	}
 	return scs
 }
